@@ -19,7 +19,7 @@ RULE = ("each case: a server holding a complete immutable share, an in-progress 
         "distinct by whole case.")
 LEVEL_TEXT = "Random search over the credential space of every route with a snapshot oracle."
 ASSUMPTIONS = ["TLS and the NURL handshake are outside the harness", "duplicated Authorization headers that include the correct value are not asserted either way"]
-REQUIRED_CLASSES = ["foreign-upload-after-reallocation", "wrong-swissnum", "missing-authorization", "swissnum-prefix", "secrets-missing", "secrets-malformed", "wrong-upload-secret", "wrong-write-enabler", "wrong-enabler-new-share-only",
+REQUIRED_CLASSES = ["mutable-share-recreated-under-new-enabler", "foreign-upload-after-reallocation", "wrong-swissnum", "missing-authorization", "swissnum-prefix", "secrets-missing", "secrets-malformed", "wrong-upload-secret", "wrong-write-enabler", "wrong-enabler-new-share-only",
                     "legit-ok", "route-read", "route-write"]
 BUDGET = {"quick": 900, "thorough": 7200}
 SW = b"swissnum-" + b"x" * 23
@@ -59,7 +59,7 @@ def cases(draw):
     for rq in reqs:
         if draw(st.integers(0, 2)) == 0:
             rq["route"], rq["auth"], rq["secrets"], rq["target"] = draw(st.sampled_from(combos))
-    return {"reqs": reqs}
+    return {"reqs": reqs, "slot_history": draw(st.sampled_from(["fresh", "fresh", "recreated"]))}
 
 
 def run_shard(spec, ctx):
@@ -92,6 +92,11 @@ def run_case(case, ctx):
     assert H.result(imm.create(SI["inprogress"], {0}, 40, U_OWNER, RENEW, CANCEL))[0] == "ok"
     assert H.result(imm.write_share_chunk(SI["inprogress"], 0, U_OWNER, 0, secret_marker[1][:20]))[0] == "ok"
     mut = StorageClientMutables(H.client)
+    if case.get("slot_history") == "recreated":
+        # the slot's share existed before under another write enabler (the one the attacker will present), was written, deleted (new length 0) and re-created
+        assert H.result(mut.read_test_write_chunks(SI["mutable"], WE_BAD, RENEW, CANCEL, {0: TestWriteVectors(write_vectors=[WriteVector(offset=0, data=b"previous incarnation")])}, []))[0] == "ok"
+        assert H.result(mut.read_test_write_chunks(SI["mutable"], WE_BAD, RENEW, CANCEL, {0: TestWriteVectors(write_vectors=[WriteVector(offset=3, data=b"xyz")])}, []))[0] == "ok"
+        assert H.result(mut.read_test_write_chunks(SI["mutable"], WE_BAD, RENEW, CANCEL, {0: TestWriteVectors(new_length=0)}, []))[0] == "ok"
     assert H.result(mut.read_test_write_chunks(SI["mutable"], WE, RENEW, CANCEL, {0: TestWriteVectors(write_vectors=[WriteVector(offset=0, data=secret_marker[2])])}, []))[0] == "ok"
 
     def snapshot():
@@ -99,6 +104,8 @@ def run_case(case, ctx):
         return (store.snapshot(ss.storedir if hasattr(ss, "storedir") else os.path.join(d, "srv")), ss.allocated_size(),
                 sorted((k, sorted(v.shares)) for k, v in ups._uploads.items()))
     classes = set()
+    if case.get("slot_history") == "recreated":
+        classes.add("mutable-share-recreated-under-new-enabler")
     nt = False
     hist = []
     owner, ever_owned, realloc, alloc_hist = {}, {}, {}, []
